@@ -11,12 +11,12 @@ enum Tok { Lit(char), Grp(&'static str) }
 
 const LITS: &[char] = &['/', 'a', 'b', 'c', '-', '.', 'x', '\u{e9}', '(', '+'];
 const GROUPS: &[&str] = &[
-    "?:[a-z]+", "[0-9]+", "?:.+?", "cat|dog", "?:([\\p{Ll}]|\\-)+?", "?:\\(|a)+", "?:[a-c]{2}", "?:(?:x|y)(?:z)?",
+    "?:[a-z]+", "[0-9]+", "?:.+?", "cat|dog", "?:([\\p{Ll}]|\\-)+?", "?:\\(|a)+", "?:[a-c]{2}", "?:(?:x|y)(?:z)?", "?:(a|\\)|b)+?", "?:[)(]\\)x|y)",
 ];
 /// samples inside / outside each group's language (same order as GROUPS)
 const SAMPLES: &[&[&str]] = &[
     &["foo", "a", "A1", ""], &["42", "7", "x", ""], &["zz", "a/b", "", "-"], &["cat", "dog", "cow", "catdog"],
-    &["ab-c", "\u{e9}a", "A", ""], &["(a", "aa", "b", "("], &["ab", "cc", "abc", "d"], &["xz", "y", "z", "xy"],
+    &["ab-c", "\u{e9}a", "A", ""], &["(a", "aa", "b", "("], &["ab", "cc", "abc", "d"], &["xz", "y", "z", "xy"], &["a)b", ")", "c", ""], &["))x", "y", "()x", "x"],
 ];
 
 fn render(ts: &[Tok]) -> String {
@@ -142,6 +142,7 @@ fn cq_chars(s: &str) -> String {
 }
 
 pub fn run_case(id: usize, input: &Value) {
+    if input["kind"] == "router_cache" { run_router_cache(id, input); return; }
     let ic = input["ic"].as_bool().unwrap();
     let unique = input["unique"].as_bool().unwrap();
     let hays: Vec<String> = input["hays"].as_array().unwrap().iter().map(|x| x.as_str().unwrap().to_string()).collect();
@@ -247,6 +248,8 @@ pub fn generate_c12(seed: u64, thorough: bool) -> Vec<Value> {
         c["ops"] = Value::Array(dense);
         out.push(c);
     }
+    let nr = if thorough { 600 } else { 80 };
+    for _ in 0..nr { out.push(gen_router_cache(&mut rng)); }
     // exhaustive (limit, level) sweep after a base history without cache steps
     let nbase = if thorough { 40 } else { 6 };
     for _ in 0..nbase {
@@ -267,4 +270,90 @@ pub fn generate_c12(seed: u64, thorough: bool) -> Vec<Value> {
         }
     }
     out
+}
+
+
+// ---------------------------------------------------------------- C12 at router level: match, captures (Location) and trace after Router::cache
+const RC_TEMPLATES: &[(&str, &str, &str)] = &[("/shop/@name", "[a-z]+", "/store/@name"), ("/Blog/@name", "[a-z\\-]+", "/b/@name/x"), ("/p/@name", "[0-9]+", "/q?id=@name"), ("/@name/end", "(?:cat|dog)", "/animal/@name")];
+const RC_URLS: &[&str] = &["/shop/abc", "/Shop/abc", "/Blog/my-post", "/blog/x", "/p/42", "/p/x", "/cat/end", "/dog/end", "/static", "/zzz"];
+
+fn gen_router_cache(rng: &mut Rng) -> Value {
+    let n = 1 + rng.below(5);
+    let mut rules = Vec::new();
+    for i in 0..n {
+        if rng.chance(1, 4) {
+            rules.push(json!({"id": format!("s{}", i), "rank": rng.below(3), "status_code": 301, "target": "/static-target", "source": {"path": "/static"}}));
+        } else {
+            let t = rng.pick(RC_TEMPLATES);
+            let host: Value = if rng.chance(1, 4) { json!("@h.example.org") } else { Value::Null };
+            let mut markers = vec![json!({"name": "name", "regex": t.1})];
+            if !host.is_null() { markers.push(json!({"name": "h", "regex": "[a-z]+"})); }
+            rules.push(json!({"id": format!("m{}", i), "rank": rng.below(3), "status_code": 301, "target": if host.is_null() { json!(t.2) } else { json!(format!("https://@h.example.net{}", t.2)) },
+                              "source": {"path": t.0, "host": host}, "markers": markers,
+                              "header_filters": if rng.chance(1, 3) { json!([{"action": "add", "header": "X-Name", "value": "n=@name"}]) } else { Value::Null }}));
+        }
+    }
+    let limits: Vec<Value> = (0..3).map(|_| match rng.below(6) { 0 => Value::Null, 1 => json!(0), 2 => json!(1), 3 => json!(2), 4 => json!(5), _ => json!(1000) }).collect();
+    let late = { let t = rng.pick(RC_TEMPLATES); json!({"id": "late", "rank": 1, "status_code": 302, "target": t.2, "source": {"path": t.0}, "markers": [{"name": "name", "regex": t.1}]}) };
+    json!({"kind": "router_cache", "cfg": {"ignore_host_case": rng.chance(1, 2), "ignore_path_and_query_case": rng.chance(1, 2)}, "rules": rules, "limits": limits, "late": late,
+           "hosts": [Value::Null, json!("shop.example.org")]})
+}
+
+fn run_router_cache(id: usize, input: &Value) {
+    use redirectionio::action::Action;
+    use redirectionio::api::Rule;
+    use redirectionio::http::Request;
+    use redirectionio::router::Router;
+    use redirectionio::RouterConfig;
+    let inp = input.clone();
+    let res = catch(move || {
+        let cfg: RouterConfig = serde_json::from_value(inp["cfg"].clone()).expect("cfg");
+        let mut base = Router::<Rule>::from_config(cfg.clone());
+        for r in inp["rules"].as_array().unwrap() { base.insert(serde_json::from_value::<Rule>(r.clone()).expect("rule")); }
+        let observe = |router: &Router<Rule>| -> Vec<Value> {
+            let mut out = Vec::new();
+            for h in inp["hosts"].as_array().unwrap() {
+                for u in RC_URLS {
+                    let req = Request::from_config(&cfg, u.to_string(), h.as_str().map(|s| s.to_string()), None, None, None, None);
+                    let routes = router.match_request(&req);
+                    let mut ids: Vec<String> = routes.iter().map(|r| r.id().to_string()).collect(); ids.sort();
+                    let targets: Vec<Option<String>> = { let mut rs = routes.clone(); rs.sort_by(|a, b| a.id().cmp(b.id())); rs.iter().map(|r| Action::get_target(r, &req)).collect() };
+                    let mut action = Action::from_routes_rule(routes, &req, None);
+                    let code = action.get_status_code(0, None);
+                    let headers = action.filter_headers(Vec::new(), code, false, None);
+                    let traces = router.trace_request(&req);
+                    let mut tr: Vec<String> = redirectionio::router::Trace::get_routes_from_traces(&traces).iter().map(|r| r.id().to_string()).collect(); tr.sort(); tr.dedup();
+                    out.push(json!([ids, targets, code, headers.iter().map(|x| json!([x.name, x.value])).collect::<Vec<_>>(), tr]));
+                }
+            }
+            out
+        };
+        let reference = observe(&base);
+        let mut same = true;
+        let mut detail = Vec::new();
+        // cache with each limit on a clone (and twice), then insert a rule after caching and compare with the uncached router after the same insert
+        let late: Rule = serde_json::from_value(inp["late"].clone()).expect("late");
+        let mut plain_late = base.clone(); plain_late.insert(late.clone());
+        let reference_late = observe(&plain_late);
+        for l in inp["limits"].as_array().unwrap() {
+            let mut c = base.clone();
+            c.cache(l.as_u64());
+            if observe(&c) != reference { same = false; detail.push(json!({"limit": l, "phase": "after cache"})); }
+            c.cache(l.as_u64());
+            if observe(&c) != reference { same = false; detail.push(json!({"limit": l, "phase": "after second cache"})); }
+            c.insert(late.clone());
+            if observe(&c) != reference_late { same = false; detail.push(json!({"limit": l, "phase": "insert after cache"})); }
+            c.cache(None);
+            if observe(&c) != reference_late { same = false; detail.push(json!({"limit": l, "phase": "cache after insert"})); }
+        }
+        let captured = reference.iter().any(|o| o[1].as_array().unwrap().iter().any(|t| t.is_string()));
+        (same, detail, captured)
+    });
+    let (same, detail, captured) = match res {
+        Ok(x) => x,
+        Err(e) => { emit(id, "", input.clone(), &["panic".to_string()], false, json!({"panic": e})); return; }
+    };
+    // encoded as a tree case without operations: the model and the flat specification observe nothing, so any recorded observation is a disagreement
+    let coq = format!("{{| c_ic := false; c_unique := false; c_ops := []; c_hays := []; c_pats := []; c_obs := {} |}}", if same { "[]" } else { "[[[0]]]" });
+    emit(id, &coq, input.clone(), &["router-cache-capture".to_string()], captured, json!({"same": same, "detail": detail}));
 }
